@@ -291,9 +291,29 @@ def c06_d(ctx: Ctx):
     # the value variable derives from doc within the same iteration
     # the value variable: the local that the filed key derives from (index[...] subscript), assigned inside the loop
     keyed = {x for a in adds for s in ast.walk(a.func.value) if isinstance(s, ast.Subscript) for x in names_in(s.slice)}
-    vdefs = [n for st in lp.body for n in ast.walk(st) if isinstance(n, ast.Assign) and any(isinstance(t, ast.Name) and t.id in keyed for t in n.targets)]
-    vnames = {t.id for n in vdefs for t in n.targets if isinstance(t, ast.Name)}
-    ok = vdefs and all(names_in(n.value) <= ({docv} | vnames | inner_targets) for n in vdefs) and any(docv in names_in(n.value) for n in vdefs)
+    # transitive closure over the locals assigned inside the loop: everything the filed key is computed from is either the visited document, a local
+    # (re)computed in this iteration, or something the loop does not assign at all (parameters, globals, loop-invariant locals such as the split key)
+    loop_assigned = {}
+    for st in lp.body + lp.orelse:
+        for n in ast.walk(st):
+            if isinstance(n, ast.Assign):
+                for t in n.targets:
+                    if isinstance(t, ast.Name):
+                        loop_assigned.setdefault(t.id, []).append(n)
+    frontier, seen = set(keyed) & set(loop_assigned), set()
+    vdefs = []
+    while frontier:
+        nm = frontier.pop()
+        seen.add(nm)
+        for n in loop_assigned.get(nm, []):
+            vdefs.append(n)
+            for x in names_in(n.value):
+                if x in loop_assigned and x not in seen:
+                    frontier.add(x)
+    vnames = seen
+    used = set().union(*[names_in(n.value) for n in vdefs]) if vdefs else set()
+    foreign = {x for x in used if x in loop_assigned and x not in vnames} | ({idv} & used)
+    ok = vdefs and not foreign and docv in used
     if ok:
         out.append(ctx.ok(R, f, vdefs[0], "the indexed value is re-derived from the visited document in every iteration"))
     else:
